@@ -142,6 +142,10 @@ func deref(s *string) string {
 // create-event auth rule ignores that member accept such a room).
 var simCreateVersionOverride string
 
+// simInitialPowerLevels, when set, supplies the content of the room's first power-levels event (the only one in which
+// the creator can give anybody, themselves included, any level whatever).
+var simInitialPowerLevels func(creator string) *ref.Value
+
 func newSim(r *gen.Rand, ver gmsl.RoomVersion) (*sim, *simBranch) {
 	t := ref.Traits(string(ver))
 	s := &sim{ver: ver, t: t, impl: gmsl.MustGetRoomVersion(ver), r: r, all: map[string]gmsl.PDU{}, users: simUsers, equalTS: r.Chance(0.3)}
@@ -198,6 +202,9 @@ func newSim(r *gen.Rand, ver gmsl.RoomVersion) (*sim, *simBranch) {
 		"users_default", ref.I(gen.Pick(r, []int64{0, 0, 25})))
 	if r.Chance(0.5) {
 		pl.Set("events", ref.O("m.room.topic", ref.I(gen.Pick(r, []int64{0, 25, 50})), "m.room.power_levels", ref.I(gen.Pick(r, []int64{50, 100}))))
+	}
+	if simInitialPowerLevels != nil {
+		pl = simInitialPowerLevels(creator)
 	}
 	must("m.room.power_levels", strp(""), creator, pl)
 	jr := gen.Pick(r, []string{"public", "public", "public", "invite"})
